@@ -21,7 +21,7 @@ from scico.numpy.linalg import norm
 from scico.operator import Operator
 from scico.typing import PRNGKey
 
-from ._common import Optimizer
+from ._common import Optimizer, _all_finite
 
 
 class PDHG(Optimizer):
@@ -148,7 +148,7 @@ class PDHG(Optimizer):
         Return ``False`` if a ``NaN`` or ``Inf`` value is encountered in
         a solver working variable.
         """
-        return snp.all(snp.isfinite(self.x)) and snp.all(snp.isfinite(self.z))
+        return _all_finite(self.x) and _all_finite(self.z)
 
     def _objective_evaluatable(self):
         """Determine whether the objective function can be evaluated."""
